@@ -531,27 +531,125 @@ func rpcCase(g *G) Case {
 	return c
 }
 
+
+// ---------------------------------------------------------------------------------------------- chunk structure dump
+// (for the Coq model of the chunk codec: every field the codec carries, unexported ones through reflection; 64-bit
+// values as their bit patterns)
+
+func fld(v reflect.Value, name string) reflect.Value {
+	for v.Kind() == reflect.Ptr || v.Kind() == reflect.Interface {
+		v = v.Elem()
+	}
+	return access(v.FieldByName(name))
+}
+
+func u64s(v reflect.Value) []uint64 {
+	out := []uint64{}
+	for i := 0; i < v.Len(); i++ {
+		e := v.Index(i)
+		switch e.Kind() {
+		case reflect.Float64:
+			out = append(out, math.Float64bits(e.Float()))
+		case reflect.Int, reflect.Int64:
+			out = append(out, uint64(e.Int()))
+		default:
+			out = append(out, e.Uint())
+		}
+	}
+	return out
+}
+
+func byteInts(b []byte) []int {
+	out := make([]int, len(b))
+	for i, x := range b {
+		out[i] = int(x)
+	}
+	return out
+}
+
+func dumpColumn(cv reflect.Value) any {
+	if !cv.IsValid() || ((cv.Kind() == reflect.Interface || cv.Kind() == reflect.Ptr) && cv.IsNil()) {
+		return nil
+	}
+	bools := []bool{}
+	bv := fld(cv, "booleanValues")
+	for i := 0; i < bv.Len(); i++ {
+		bools = append(bools, bv.Index(i).Bool())
+	}
+	tuples := [][]uint64{}
+	tv := fld(cv, "floatTuples")
+	for i := 0; i < tv.Len(); i++ {
+		tuples = append(tuples, u64s(access(tv.Index(i).FieldByName("values"))))
+	}
+	var nils any
+	nv := fld(cv, "nilsV2")
+	if !nv.IsNil() {
+		nils = J{"bits": byteInts(fld(nv, "bits").Bytes()), "array": u64s(fld(nv, "array")),
+			"length": uint64(fld(nv, "length").Int()), "nil": uint64(fld(nv, "nilCount").Int())}
+	}
+	return J{"type": uint64(fld(cv, "dataType").Int()), "floats": u64s(fld(cv, "floatValues")), "ints": u64s(fld(cv, "integerValues")),
+		"strbytes": byteInts(fld(cv, "stringBytes").Bytes()), "offset": u64s(fld(cv, "offset")), "bools": bools,
+		"times": u64s(fld(cv, "times")), "tuples": tuples, "nils": nils}
+}
+
+func dumpChunk(ch *executor.ChunkImpl) J {
+	v := reflect.ValueOf(ch)
+	tags := [][]int{}
+	tv := fld(v, "tags")
+	for i := 0; i < tv.Len(); i++ {
+		tags = append(tags, byteInts(access(tv.Index(i).FieldByName("subset")).Bytes()))
+	}
+	cols := func(name string) []any {
+		out := []any{}
+		cv := fld(v, name)
+		for i := 0; i < cv.Len(); i++ {
+			out = append(out, dumpColumn(cv.Index(i)))
+		}
+		return out
+	}
+	return J{"name": byteInts([]byte(fld(v, "name").String())), "tags": tags, "tagindex": u64s(fld(v, "tagIndex")),
+		"time": u64s(fld(v, "time")), "intervalindex": u64s(fld(v, "intervalIndex")), "columns": cols("columns"), "dims": cols("dims")}
+}
+
 // ---------------------------------------------------------------------------------------------- chunks
 
 var colTypes = []influxql.DataType{influxql.Float, influxql.Integer, influxql.String, influxql.Boolean, influxql.FloatTuple, influxql.Tag}
 
-func (g *G) fillColumn(col executor.Column, dt influxql.DataType, rows int) {
+// floatAny: any float64 pattern, special values included (a result column can hold NaN, infinities, -0.0)
+func (g *G) floatAny() float64 {
+	if g.r.Chance(1, 4) {
+		return gen.Pick(g.r, []float64{math.NaN(), math.Float64frombits(0x7ff8000000000001), math.Float64frombits(0xfff0000000000001), math.Inf(1), math.Inf(-1),
+			math.Copysign(0, -1), 0, math.MaxFloat64, -math.MaxFloat64, 5e-324, math.Float64frombits(g.r.Uint64())})
+	}
+	return g.float(true)
+}
+
+// fillColumn appends rows values/nils; mode 0 mixed, 1 all nil, 2 no nil
+func (g *G) fillColumn(col executor.Column, dt influxql.DataType, rows int, mode int) {
 	for i := 0; i < rows; i++ {
-		if g.r.Chance(1, 4) {
+		if mode == 1 || (mode == 0 && g.r.Chance(1, 4)) {
 			col.AppendNil()
 			continue
 		}
 		switch dt {
 		case influxql.Float:
-			col.AppendFloatValue(g.float(true))
+			col.AppendFloatValue(g.floatAny())
 		case influxql.Integer:
 			col.AppendIntegerValue(g.r.Int64Boundary())
 		case influxql.String, influxql.Tag:
-			col.AppendStringValue(g.strv())
+			if g.r.Chance(1, 4000) {
+				col.AppendStringValue(strings.Repeat("long\x00\xff", 11000)) // > 64 KiB, NUL and non-UTF-8 bytes
+			} else {
+				col.AppendStringValue(g.strv())
+			}
 		case influxql.Boolean:
 			col.AppendBooleanValue(g.r.Bool())
 		case influxql.FloatTuple:
-			col.AppendFloatTuple(*executor.NewfloatTuple([]float64{g.float(true), float64(i)}))
+			vals := []float64{g.floatAny(), float64(i)}
+			if g.r.Chance(1, 5) {
+				vals = []float64{}
+			}
+			col.AppendFloatTuple(*executor.NewfloatTuple(vals))
 		}
 		col.AppendNotNil()
 		if g.r.Chance(1, 6) {
@@ -567,8 +665,12 @@ func (g *G) genChunk() *executor.ChunkImpl {
 		refs = append(refs, influxql.VarRef{Val: fmt.Sprintf("c%d", i), Type: gen.Pick(g.r, colTypes)})
 	}
 	rdt := hybridqp.NewRowDataTypeImpl(refs...)
-	chunk := executor.NewChunkBuilder(rdt).NewChunk(gen.Pick(g.r, strPool))
-	rows := gen.Pick(g.r, []int{0, 1, 2, 7, 8, 9, 33, 64, 65})
+	name := gen.Pick(g.r, strPool)
+	if g.r.Chance(1, 10) {
+		name = strings.Repeat("m", gen.Pick(g.r, []int{255, 256, 300, 65535}))
+	}
+	chunk := executor.NewChunkBuilder(rdt).NewChunk(name)
+	rows := gen.Pick(g.r, []int{0, 1, 2, 7, 8, 9, 15, 16, 17, 33, 64, 65, 255, 256, 257})
 	ntags := g.r.Intn(4)
 	if rows == 0 {
 		ntags = 0
@@ -587,19 +689,19 @@ func (g *G) genChunk() *executor.ChunkImpl {
 		}
 	}
 	for i, ref := range refs {
-		g.fillColumn(chunk.Column(i), ref.Type, rows)
+		g.fillColumn(chunk.Column(i), ref.Type, rows, gen.Pick(g.r, []int{0, 0, 0, 1, 2}))
 	}
 	if g.r.Chance(1, 4) {
 		extra := executor.NewColumnImpl(influxql.Boolean)
-		g.fillColumn(extra, influxql.Boolean, rows)
+		g.fillColumn(extra, influxql.Boolean, rows, 0)
 		chunk.AddColumn(extra)
 	}
 	if g.r.Chance(1, 3) {
 		chunk.AddDim(executor.NewColumnImpl(influxql.String))
-		g.fillColumn(chunk.Dim(0), influxql.String, rows)
+		g.fillColumn(chunk.Dim(0), influxql.String, rows, 0)
 		if g.r.Bool() {
 			chunk.AddDim(executor.NewColumnImpl(influxql.Integer))
-			g.fillColumn(chunk.Dim(1), influxql.Integer, rows)
+			g.fillColumn(chunk.Dim(1), influxql.Integer, rows, 2)
 		}
 	}
 	return chunk.(*executor.ChunkImpl)
@@ -666,6 +768,7 @@ func chunkCase(g *G) Case {
 				c.Oracle = "unmarshal error: " + err.Error()
 				return
 			}
+			c.Chunks = append(c.Chunks, J{"obj": dumpChunk(ch), "bytes": hex.EncodeToString(buf), "back": dumpChunk(back)})
 			for _, f := range lostFields(ch, back) {
 				lost[f] = true
 			}
